@@ -250,6 +250,11 @@ Proof. step. apply star_refl. Qed.
 Lemma star_next l g :
   star G1 (shared_of_level l g) (Done (RetNum g)) (shared_of_level l (wadd g 1)).
 Proof. step. apply star_refl. Qed.
+(* snapshot(), run alone: the three aggregates and the listing of the level, nothing changed *)
+Lemma star_snapshot l g :
+  star Sn1 (shared_of_level l g)
+       (Done (RetSnap (cvis l) (chid l) (ccnt l) (to_vec (lq l)))) (shared_of_level l g).
+Proof. do 4 step. apply star_refl. Qed.
 
 Theorem run_alone_read_vis l g :
   exists n, forall fuel, (n <= fuel)%nat ->
@@ -276,6 +281,11 @@ Theorem run_alone_next l g :
     run_alone fuel (start (price l) CNext) (shared_of_level l g)
     = Some (RetNum g, shared_of_level l (wadd g 1)).
 Proof. apply star_run, star_next. Qed.
+Theorem run_alone_snapshot l g :
+  exists n, forall fuel, (n <= fuel)%nat ->
+    run_alone fuel (start (price l) CSnapshot) (shared_of_level l g)
+    = Some (RetSnap (cvis l) (chid l) (ccnt l) (to_vec (lq l)), shared_of_level l g).
+Proof. apply star_run, star_snapshot. Qed.
 
 (* ------------------------------------------------------------------ *)
 (* 3. match_order                                                      *)
@@ -489,6 +499,7 @@ Definition seq_call (fuel : nat) (l : level) (g : N) (c : call) : option (level 
   | CReadCnt => Some (l, g, RetNum (ccnt l))
   | CList => Some (l, g, RetList (to_vec (lq l)))
   | CNext => Some (l, wadd g 1, RetNum g)
+  | CSnapshot => Some (l, g, RetSnap (cvis l) (chid l) (ccnt l) (to_vec (lq l)))
   end.
 
 Fixpoint seq_calls (fuel : nat) (cs : list call) (l : level) (g : N)
@@ -520,6 +531,7 @@ Proof.
   - inversion H; subst. apply star_read_cnt.
   - inversion H; subst. apply star_list.
   - inversion H; subst. apply star_next.
+  - inversion H; subst. apply star_snapshot.
 Qed.
 
 Theorem run_alone_call fuel0 l g c l' g' r :
